@@ -325,7 +325,8 @@ def install(I):
         else:
             # arbitrary bytes: either not a curve point (error) or some montgomery point
             form, (s,) = is_form(p, 'pk', 1)
-            good = I.fresh_bool('edpoint-valid')
+            # whether arbitrary bytes are a curve point is a function of the bytes (the same answer on every call)
+            good = z3.Function('ed_valid_point', T.Term, z3.BoolSort())(p)
             if not I.fork_bool(zor(simp_bool(form), good), 'ed-point'):
                 return mk_error(I, 'unable to generate point from publicKey')
             x = z3.If(form, T.app('xpub', T.app('edpriv2x', s)), T.app('edpub2x', p))
